@@ -19,17 +19,18 @@
     PROVED, for every world and every name:
     - [C16_terminates_readonly]: resolution returns (never [MHalt]) and leaves
       the world unchanged.
-    - [C16_no_fuel_exhaustion]: for absolute names in a well-formed tree,
-      *whatever* the symlink topology (cycles, dangling links, links through
-      links, unclean targets), the model's recursion budget is not exhausted
-      when  N*(T+1) + 40*T + 4 <= 4096  (N components in the name, at most T
-      separator-delimited pieces in any link target).
+    - [C16_no_fuel_exhaustion]: for absolute names - of any length - in a
+      well-formed tree, *whatever* the symlink topology (cycles, dangling
+      links, links through links, unclean targets), the model's recursion
+      budget is not exhausted when  40*T + 2 <= 4096  (at most T
+      separator-delimited pieces in any link target).  The budget of [resolve]
+      is [walk_fuel + length p]: the name pays for itself, the constant part
+      pays for the at most 40 link targets the kernel splices in.
     - [C16_fixpoint]: a name without a symlink among its parents resolves to
-      itself.
+      itself (no size bound).
 
-    PROVED under [c16_hyps]: the tree is well formed ([wf]), within the fuel
-    bound [size_ok] (for every entry: key depth + pieces of its link target +
-    components of the name + 3 < 4096), and the recorded deviations are
+    PROVED under [c16_hyps]: the tree is well formed ([wf]; no size bound on
+    the tree or the name), and the recorded deviations are
     excluded by their trigger predicates of Backup/Triggers.v, evaluated on a
     configuration whose base is the plain OS filesystem ([plain_cfg]):
       D20  the name is relative                 ([is_abs (clean n) = true])
@@ -47,7 +48,8 @@
       - the same key and node, the same missing entry (parent key, name), or
       the same error - provided the kernel's answer for the caller's name is
       [definite], i.e. is not ELOOP / the model's EFUEL.
-      [C16_same_entry_bounded]: the EFUEL half follows from a size bound.
+      [C16_same_entry_bounded]: the EFUEL half follows from the bound on the
+      link targets (40*T + 2 <= 4096).
     - [C16_final_unresolved]: if the name is dir/base and dir resolves
       (following links) to the directory key kd, the result is the path of
       kd ++ [base], whether or not that entry is a symlink.
@@ -63,7 +65,10 @@
     NECESSITY of the exclusions (T4), each a closed computation on a small
     tree: [C16_D17_necessary], [C16_K2_necessary], [C16_D20_necessary]; the
     hypotheses are satisfiable on a tree with an absolute and a relative link
-    in parent positions ([C16_satisfiable]).  K3 (climbing relative target)
+    in parent positions ([C16_satisfiable]).  (The conjunct [size_okb .. = true]
+    in the three necessity statements is the former fuel bound of [c16_hyps];
+    it is no longer a hypothesis of any theorem and is kept only because the
+    statements are unchanged.)  K3 (climbing relative target)
     and K4 (dangling parent link) need NOT be excluded for C16 over the plain
     OS filesystem ([C16_K3_not_needed], [C16_K4_not_needed]): they concern the
     operation performed afterwards / the prefixed layerings.
@@ -89,7 +94,7 @@ Print Assumptions C16_terminates_readonly.
 
 Theorem C16_no_fuel_exhaustion : forall n w T,
   wf (st_fs (w_st w)) -> is_abs n = true -> links_bounded (st_fs (w_st w)) T ->
-  length (comps n) * (T + 1) + 40 * T + 4 <= walk_fuel ->
+  40 * T + 2 <= walk_fuel ->
   fst (real_path osfs n w) <> MErr EFUEL.
 Proof. exact real_path_no_efuel. Qed.
 Print Assumptions C16_no_fuel_exhaustion.
@@ -116,7 +121,7 @@ Print Assumptions C16_same_entry.
 
 Theorem C16_same_entry_bounded : forall q n w T rp,
   c16_hyps q n w -> links_bounded (st_fs (w_st w)) T ->
-  length (comps n) + 40 * T + 3 <= walk_fuel ->
+  40 * T + 2 <= walk_fuel ->
   fst (real_path osfs n w) = MOk rp ->
   resolve (st_fs (w_st w)) (clean n) false <> WErr ELOOP ->
   resolve (st_fs (w_st w)) rp false = resolve (st_fs (w_st w)) (clean n) false.
@@ -157,7 +162,7 @@ Print Assumptions C16_shape.
 (** * T3: fixpoint, idempotence *)
 
 Theorem C16_fixpoint : forall p w,
-  wf (st_fs (w_st w)) -> nolinkpar (st_fs (w_st w)) p -> length (comps p) + 2 < walk_fuel ->
+  wf (st_fs (w_st w)) -> nolinkpar (st_fs (w_st w)) p ->
   real_path osfs p w = (MOk p, w).
 Proof. exact real_path_fixpoint. Qed.
 Print Assumptions C16_fixpoint.
@@ -175,7 +180,7 @@ Proof. exact c16_hypsb_ok. Qed.
 Print Assumptions C16_hyps_decidable.
 
 Theorem C16_hyps_of_triggers : forall q n w,
-  wf (st_fs (w_st w)) -> size_ok (st_fs (w_st w)) (length (comps n)) ->
+  wf (st_fs (w_st w)) ->
   triggers (plain_cfg q) (ORealPath n) w = [] -> c16_hyps q n w.
 Proof. exact c16_hyps_of_triggers. Qed.
 Print Assumptions C16_hyps_of_triggers.
@@ -259,7 +264,7 @@ Print Assumptions C16_K4_not_needed.
 
 Definition C16_relative_same_entry_stmt : Prop :=
   forall q n w rp,
-    wf (st_fs (w_st w)) -> size_ok (st_fs (w_st w)) (length (comps n)) ->
+    wf (st_fs (w_st w)) ->
     resolve_through_link (plain_cfg q) (cands (clean n)) (fun x => x) w = false ->
     unclean_target w = false ->
     fst (real_path osfs n w) = MOk rp ->
@@ -269,5 +274,5 @@ Definition C16_relative_same_entry_stmt : Prop :=
 Definition C16_relative_no_fuel_exhaustion_stmt : Prop :=
   forall n w T,
     wf (st_fs (w_st w)) -> links_bounded (st_fs (w_st w)) T ->
-    length (comps n) * (T + 1) + 40 * T + 4 <= walk_fuel ->
+    40 * T + 2 <= walk_fuel ->
     fst (real_path osfs n w) <> MErr EFUEL.
